@@ -55,6 +55,16 @@ COMPONENTS = {
 }
 
 
+def evidence_dir():
+    """Where evidence is written (overridable so that runs against patched scratch trees
+    do not overwrite the evidence of the real tree)."""
+    return os.environ.get("PROVSIM_EVIDENCE_DIR") or os.path.join(VERIF, "evidence")
+
+
+def replays_dir():
+    return os.environ.get("PROVSIM_REPLAY_DIR") or os.path.join(VERIF, "replays")
+
+
 def load_known():
     from . import known
 
@@ -248,7 +258,7 @@ def cross_compare(prop, results):
 def write_replay(prop, v):
     from .worker import sig_name
 
-    d = os.path.join(VERIF, "replays", prop)
+    d = os.path.join(replays_dir(), prop)
     os.makedirs(d, exist_ok=True)
     path = os.path.join(d, "%s-%s.json" % (sig_name(v["signature"]), v["seed"]))
     with open(path, "w") as f:
@@ -332,7 +342,7 @@ def write_evidence(prop, tier, seed, agg, wall_s, nviol, attributed, harness_err
         "wall_s": round(wall_s, 2),
         "violations": nviol,
     }
-    d = os.path.join(VERIF, "evidence")
+    d = evidence_dir()
     os.makedirs(d, exist_ok=True)
     tmp = os.path.join(d, ".%s.json.tmp" % prop)
     with open(tmp, "w") as f:
